@@ -638,8 +638,56 @@ def oracle(case, impl):
         return None
     cmd, _, argv = decode(case)
     if any("ignore_errors" in c["settings"] for c in all_cmds(cmd)):
-        return None     # an Ok under ignore_errors is a swallowed error: partial entries, out of scope here
+        # an Ok under ignore_errors may be a swallowed error (partial command-line entries), but the
+        # environment and default phases still run, in that order, at every level that was reached
+        return check_levels_ignore_errors(cmd, argv, p["m"])
     return check_levels(cmd, argv, p["m"], present)
+
+
+def _env_surely_valid(a):
+    """the environment value of `a` is certainly accepted by its value parser (so the environment phase of
+    the level cannot stop early at this argument)"""
+    val = a["env"][1]
+    act = a.get("action")
+    if act in ("settrue", "setfalse"):
+        return val in (b"true", b"false")
+    if act == "count":
+        return val.isdigit() and int(val) <= 255
+    vp = a.get("vp")
+    try:
+        val.decode("utf-8")
+    except UnicodeDecodeError:
+        return vp == "os"
+    if vp in (None, "string", "os"):
+        return True
+    if isinstance(vp, tuple) and vp[0] == "i64":
+        d = a.get("delim")
+        pieces = val.split(d.encode()) if d else [val]
+        try:
+            return all(vp[1] <= int(x) <= vp[2] and x.strip() == x for x in pieces)
+        except ValueError:
+            return False
+    return False
+
+
+def check_levels_ignore_errors(cmd, argv, m):
+    lv = levels(m)
+    chain = chain_levels(cmd, lv)
+    for k, (c, eff, ents) in enumerate(chain):
+        with_env = [a for a in eff if a.get("env") and a["env"][1] is not None]
+        if not with_env or not all(_env_surely_valid(a) for a in with_env):
+            continue
+        ids = collections.Counter(b["id"] for _, eff2, _ in chain for b in eff2)
+        by_id = {e["id"]: e for e in ents}
+        for a in with_env:
+            if ids[a["id"]] > 1 or "global" in a["flags"]:
+                continue      # the id also exists at another reached level: values are copied between levels
+            e = by_id.get(a["id"])
+            if e is not None and e["src"] == "default":
+                return ("level %d (%s): %s reports DefaultValue although its environment variable is set (%r) "
+                        "[ignore_errors: the environment phase still runs before the defaults]"
+                        % (k, c["name"].decode(), a["id"].decode(), a["env"][1]))
+    return None
 
 
 def pair_oracle(case, impl):
